@@ -71,11 +71,12 @@ func (c config) keyPart() string {
 	return fmt.Sprintf("n=%d/btype=%s/multifolio=%s", c.N, c.BType, mf)
 }
 
-// violationKey: multifolio is documented "for n=2 only"; the parser accepting it for n=4,6,8 is ONE defect
-// whatever the booklet type, so those configurations share a key per failure class.
+// violationKey: a multi-folio signature has 4*foliosize pages (a folio = folded half sheet), a sheet 2*N pages.
+// A configuration whose signature is not a whole number of sheets being accepted is ONE defect whatever the
+// booklet type, N and folio size, so those configurations share a key per failure class.
 func (c config) violationKey(class string) string {
-	if c.MultiF && c.N != 2 {
-		return fmt.Sprintf("ordering/%s/multifolio=on-with-n>2", class)
+	if c.MultiF && (4*c.FolioSize)%(2*c.N) != 0 {
+		return fmt.Sprintf("ordering/%s/multifolio-signature-not-whole-sheets", class)
 	}
 	return fmt.Sprintf("ordering/%s/%s", class, c.keyPart())
 }
@@ -197,7 +198,7 @@ func main() {
 			"output page count = ceil(selected/cells) resp. slots/N", maxK))
 		t.Assume("'N' is the number of pages per sheet SIDE for every booklet type (usage: 'booklet ... 4 in.pdf: 4 per sheet side (8 per sheet, back and front)'); a sheet is 2 sides, so whole sheets = multiple of 2N slots; no type documents a different sheet size")
 		t.Assume("the slot count is only required to be a whole number of sheets, not the minimal one (multi-folio signatures may legitimately be padded); extra sheets are observed, not judged")
-		t.Assume("the usage text says multifolio is 'for n=2 and PDF input only' but PDFBookletConfig accepts multifolio:on for n=4,6,8; the property quantifies over accepted configurations, so these are checked too and keyed separately (…/multifolio=on)")
+		t.Assume("the usage text says multifolio is 'for n=2 and PDF input only', but PDFBookletConfig accepts multifolio:on for every n and pdfcpu's own unit test 'signatures 4up' uses it with n=4; the property quantifies over accepted configurations, so all accepted ones are checked. A signature of 4*foliosize pages that is not a whole number of sheets (2N pages) is keyed separately (.../multifolio-signature-not-whole-sheets)")
 		t.Assume("blank slots are BookletPage{Number: 0} (getPageNumber: 'Zero represents blank page at end of booklet')")
 		t.Assume("PageDim is resolved from PageSize before calling the ordering, as pdfcpu.BookletFromPDF does")
 
